@@ -93,7 +93,13 @@ def h64(*parts) -> int:
 
 
 def short(v, n=160) -> str:
-    s = v if isinstance(v, str) else json.dumps(v, ensure_ascii=False, default=repr)
+    if isinstance(v, str):
+        s = v
+    else:
+        try:
+            s = json.dumps(v, ensure_ascii=False, default=repr)
+        except (TypeError, ValueError):
+            s = repr(v)
     return s if len(s) <= n else s[: n - 3] + "..."
 
 
